@@ -860,7 +860,13 @@ impl Lexer<'_> {
             }
             c if is_valid_unicode_sas_name_start(c) => {
                 self.lex_identifier();
-                self.set_pending_stat(true);
+                // A datalines block is the only identifier-started construct that
+                // ends with its own terminating `;` => no statement is pending after it
+                let ended_with_semi = self
+                    .buffer
+                    .last_token_info()
+                    .map_or(false, |t| t.token_type == TokenType::SEMI);
+                self.set_pending_stat(!ended_with_semi);
             }
             _ => {
                 // Something else must be a symbol or some unknown character
